@@ -6,3 +6,7 @@ import TopSearch.Model.Ktn
 import TopSearch.Gen.Ktn
 import TopSearch.Lemmas.Ktn
 import TopSearch.Props.C02
+import TopSearch.Model.Surfaces
+import TopSearch.Gen.Surfaces
+import TopSearch.Lemmas.Deriv
+import TopSearch.Props.C16
